@@ -319,10 +319,15 @@ func wMulti(d time.Duration) {
 // repeatedly (reconnect + resume of every stream), metadata and calls in flight, then Close.
 func wConn(d time.Duration) {
 	deadline := time.Now().Add(d)
+	var curMu sync.Mutex
+	var cur *broker.Broker
+	broker.RegisterIndirect(func() *broker.Broker { curMu.Lock(); defer curMu.Unlock(); return cur })
 	for time.Now().Before(deadline) {
 		b := broker.New()
 		b.AssignAliases = true
-		b.Register()
+		curMu.Lock()
+		cur = b
+		curMu.Unlock()
 		conn, err := iscp.Connect("mem", broker.TransportName, iscp.WithConnPingInterval(5*time.Millisecond), iscp.WithConnPingTimeout(time.Second))
 		if err != nil {
 			panic(err)
